@@ -211,7 +211,11 @@ func (cr *serverConnReader) readFuncStandard() error {
 	for {
 		// when FFmpeg is recording with UDP, it does not send keepalives, no matter what.
 		// disable read deadline.
-		if cr.sc.session != nil && cr.sc.session.state == ServerSessionStateRecord {
+		// (with UDP only: the session then ends by its own timeout and closes the connection.
+		// a connection attached to a session that records with TCP through another connection
+		// needs a deadline, otherwise it is never closed.)
+		if cr.sc.session != nil && cr.sc.session.state == ServerSessionStateRecord &&
+			cr.sc.session.setuppedTransport.Protocol == ProtocolUDP {
 			cr.sc.nconn.SetReadDeadline(time.Time{})
 		} else {
 			cr.sc.nconn.SetReadDeadline(time.Now().Add(cr.sc.s.IdleTimeout))
